@@ -51,9 +51,9 @@ type mev struct {
 // them, and a contradiction that disappears is reported under the name of the
 // deviation instead of the generic oracle.
 const (
-	relaxStaleTimer = 1 << iota // a watch-expiry timer fires although it was stopped
-	relaxForeignExpiry          // expiry reported by a server that is not in use is honoured
-	relaxInactiveFail           // failure of a server other than the active one triggers fallback
+	relaxStaleTimer    = 1 << iota // a watch-expiry timer fires although it was stopped
+	relaxForeignExpiry             // expiry reported by a server that is not in use is honoured
+	relaxInactiveFail              // failure of a server other than the active one triggers fallback
 )
 
 var relaxNames = map[int]string{
@@ -191,6 +191,7 @@ func (wd *world) buildEvents(stale bool) []*mev {
 			ev.optional = ev.hiSeq >= ex
 			evs = append(evs, ev)
 		}
+		raced := map[string][]int64{}
 		for _, st := range tr.streams {
 			for typ := 0; typ < 2; typ++ {
 				prev := map[string]bool{}
@@ -209,16 +210,44 @@ func (wd *world) buildEvents(stale bool) []*mev {
 						if fire > wd.quietNs {
 							continue
 						}
-						cancelled := (st.failSeq != 0 && st.failNs < fire) || (tr.closeSeq != 0 && tr.closeNs < fire)
+						// The timer is stopped by a stream failure, by the channel
+						// being released or by a response naming the resource.
+						cancelNs := int64(math.MaxInt64)
+						if st.failSeq != 0 && st.failNs < cancelNs {
+							cancelNs = st.failNs
+						}
+						if tr.closeSeq != 0 && tr.closeNs < cancelNs {
+							cancelNs = tr.closeNs
+						}
 						for _, it2 := range st.items {
-							if it2.resp != nil && it2.resp.kind == "resp" && it2.resp.typ == typ && it2.resp.ns < fire && it2.resp.seq > q.seq && respNames(it2.resp)[n] {
-								cancelled = true
+							if it2.resp != nil && it2.resp.kind == "resp" && it2.resp.typ == typ && it2.resp.seq > q.seq && respNames(it2.resp)[n] && it2.resp.ns < cancelNs {
+								cancelNs = it2.resp.ns
 							}
 						}
-						if cancelled && !stale {
-							continue
+						ev := &mev{kind: evExpiry, tr: tr, typ: typ, name: n, loNs: fire, hiNs: fire, optional: true, desc: fmt.Sprintf("expiry %s typ=%d %s @%d", tr.name(), typ, n, fire)}
+						switch {
+						case cancelNs > fire:
+							// fires before anything stops it
+						case cancelNs == fire:
+							// stopped at the very instant it fires: either outcome is
+							// legal, but the stop may come too late for a client that
+							// does not re-check (diagnosis of expiry_after_timer_stopped)
+							raced[fmt.Sprintf("%s/%d/%s", tr.name(), typ, n)] = append(raced[fmt.Sprintf("%s/%d/%s", tr.name(), typ, n)], fire)
+						default:
+							// stopped earlier: only a timer leaked by such a race (armed
+							// at the instant the raced one fired) can still go off
+							ev.stale = true
+							leaked := false
+							for _, f := range raced[fmt.Sprintf("%s/%d/%s", tr.name(), typ, n)] {
+								if f == q.ns {
+									leaked = true
+								}
+							}
+							if !stale || !leaked {
+								continue
+							}
 						}
-						evs = append(evs, &mev{kind: evExpiry, tr: tr, typ: typ, name: n, loNs: fire, hiNs: fire, optional: true, stale: cancelled, desc: fmt.Sprintf("expiry %s typ=%d %s @%d", tr.name(), typ, n, fire)})
+						evs = append(evs, ev)
 					}
 					prev = cur
 				}
@@ -637,6 +666,10 @@ func (wd *world) checkModel() {
 	e := wd.e
 	m := wd.runModel(0)
 	ok, decided := m.run()
+	e.ProbeN("model_nodes", 300000-m.budget)
+	if 300000-m.budget > 20000 {
+		e.Probe("model_search_large")
+	}
 	if !decided {
 		e.Probe("model_undecided")
 		return
